@@ -203,6 +203,11 @@ def corpus_classify(line, impl, mobs, extra):
     if "panic" in impl.split()[:4]:
         info["prop_fail"] = "corpus-panic"
         info["why"] = "Corpus::from_reader panicked"
+    elif flags.get("EXP") == "0":
+        # decider: theorems empty_sentences_dropped / trailing_tokens_dropped (written well-formed examples are read back
+        # as exactly the non-empty ones, in order; token lines after the last EOS are discarded)
+        info["prop_fail"] = "written-examples-not-read-back"
+        info["why"] = "well-formed examples written one after the other are not read back as exactly the non-empty ones"
     elif flags.get("RT") == "0":
         # outside the documented format (a parsed feature ending in CR, i.e. a line ending in CR CR LF)
         # the round trip is not claimed: theorem write_parse_idempotent carries that hypothesis
@@ -523,6 +528,20 @@ def extract_streams(kinds, nq, nt):
         extra = ["mecab"] if kinds == ("mecab",) else []
         return [(["extract", str(seed), str(n)] + extra, extract_classifier(kinds))]
     return streams
+
+
+def c17_streams(tier, seed):
+    """the rewriter alone, and the three rule sections in their context (Trainer::extract_feature_set: each section is
+    applied to the entry's OWN features, not to another section's result)"""
+    q = tier == "quick"
+    inner = extract_classifier(("featset",))
+
+    def featset_only(line, impl, mobs, extra):
+        if pflags(extra).get("KIND") != "featset":
+            return {"tags": [], "nontrivial": False, "ignore": True}
+        return inner(line, impl, mobs, extra)
+    return [(["rewrite", str(seed), "3000" if q else "200000"], rewrite_classify),
+            (["extract", str(seed), "1200" if q else "40000"], featset_only)]
 
 
 def c18_streams(tier, seed):
@@ -867,7 +886,7 @@ PROPS = {
                      "Vibrato.C17.rewrite_none_iff", "Vibrato.C17.rewriteOrSame_spec", "Vibrato.C17.bad_ref_panics",
                      "Vibrato.C17.rewrite_terminates", "Vibrato.C17.matches_iff", "Vibrato.C17.pinned_violates",
                      "Vibrato.C17.pinned_same_trie_partial", "Vibrato.C17.rewrite_some_matching_rule_partial"],
-        "streams": simple_streams("rewrite", 3000, 200000, rewrite_classify),
+        "streams": c17_streams,
         "rule": "random rule lists (0-5 rules, patterns of 0-4 cells mixing *, (a|b), literals, copied prefixes of earlier "
                 "rules so that prefixes interleave) x feature lists of 0-4 cells; first case is the pinned witness; "
                 "non-trivial = >= 2 rules and some rule applied",
